@@ -169,6 +169,8 @@ CALLS['plot.hist1d(list,bins arr)'] = (_plot(lambda s, a: FlowCal.plot.hist1d(a[
 # logarithmic axes with the caller's own edge arrays starting at zero (one array per axis, and one array for both)
 CALLS['plot.density2d(log,edge arrays from 0)'] = (_plot(lambda s, a: FlowCal.plot.density2d(s + 1, channels=a['chs2'], bins=a['edges2_zero'], xscale='log', yscale='log', mode='scatter')), True, False)
 CALLS['plot.density2d(log,one edge array from 0)'] = (_plot(lambda s, a: FlowCal.plot.density2d(s + 1, channels=a['chs2'], bins=a['edges_zero'], xscale='log', yscale='log', mode='mesh')), True, False)
+# plain arrays, channels and curve channels given as lists with negative positions
+CALLS['transform.to_mef(ndarray,negative positions)'] = (lambda s, a: FlowCal.transform.to_mef(a['plain'], a['neg_chs'], a['sc_list'], a['neg_sc']), True, False)
 # colour lists with entries left to the default (None)
 CALLS['plot.hist1d(list,colors with None)'] = (_plot(lambda s, a: FlowCal.plot.hist1d(a['pops_full'], channel=1, bins=a['edges'], xscale='linear', histtype='stepfilled',
                                                                                         facecolor=a['fc_none'], edgecolor=a['ec_none'])), True, False)
@@ -226,6 +228,7 @@ def build_args(s, rng, floaty):
         'beads': s, 'mef_values': [[0., 700., 4000., 13000.], [None, 800., 5000., 21000.]], 'mef_channels': [names[2], names[1]],
         'clustering_fxn': (lambda data, n, **kw: (np.arange(data.shape[0]) * n) // data.shape[0]), 'cparams': {}, 'sparams': {}, 'selparams': {'scale': 'linear'},
         # caller-owned containers handed to the segment readers: the declared ranges need more bits than the 8-bit parameter is wide
+        'neg_chs': [-1, 0], 'neg_sc': [0, -1],
         'edges2_zero': [np.array([0., 1., 10., 100., 1100.]), np.array([0., 2., 20., 200., 1100.])], 'edges_zero': np.array([0., 1., 10., 100., 1100.]),
         'beads_pos': s + 1, 'cparams_scale': {'scale': 'log'}, 'selparams_empty': {'n_std_low': 0., 'n_std_high': 0.}, 'fc_none': [None, 'tab:red'], 'ec_none': [None, None],
         'seg_path': _segment_file(), 'seg_widths': [8, 16], 'seg_ranges': [1024., 65536.], 'seg_ranges_arr': np.array([1024., 65536.]),
@@ -310,6 +313,9 @@ class Prop(common.PropertyCheck):
         r = random.Random(1234)
         spec = samples.spec_rich(r, N=24, D=4, datatype='I' if kind == 'int' else 'F', log_channels=[2], res=[1024, 1024, 1024, 1024], time_channel=True)
         s, _ = samples.load(spec, name='c13_%s.fcs' % kind)
+        # keyword values added by the user need not be strings: a list (mutable) as the value of a keyword of TEXT and of ANALYSIS
+        s._text['VERIF-NOTES'] = ['as loaded']
+        s._analysis['VERIF-GATES'] = [1, 2]
         return s
 
     XPROC_QUERIES = r'''
@@ -475,6 +481,10 @@ def queries(path):
                     if r._range and r._range[0] is not None:
                         r._range[0][0] = -777.0
                     r._text['VERIF'] = '1'
+                    if isinstance(r._text.get('VERIF-NOTES'), list):
+                        r._text['VERIF-NOTES'].append('edited on the result')
+                    if isinstance(r._analysis.get('VERIF-GATES'), list):
+                        r._analysis['VERIF-GATES'].append(3)
                 except Exception:
                     pass
             out['sample_same_after_result_edit'] = fpm.sample_fp(s)['state'] == fp_s1.get('state')
